@@ -171,6 +171,8 @@ def r04_1(ctx):
                 t = blk["term"]
                 # (a) drops of error carriers
                 if t["k"] == "drop" and is_carrier(t["ty"]):
+                    if not t["pl"]["p"] and t.get("adt") == "std::result::Result" and C.tag_values_at(b, bb, t["pl"]["l"]) == {0}:
+                        continue      # on every path to this drop the Result is Ok: what is dropped is the success value
                     org = _origins(b, t["pl"])
                     k = (t["pl"]["l"], tuple(org))
                     if k in seen_drop:
